@@ -27,13 +27,16 @@ impl Command for CommandImpl {
         Box::new((*self).clone())
     }
 
-    fn run(&self, mut context: CommandInvocationContext) -> CommandResult {
-        eval::eval_with_error(
+    fn run(&self, context: CommandInvocationContext) -> CommandResult {
+        eval::eval_in_place(
             &context.arguments,
-            &mut context.state,
-            &mut context.variables,
-            &mut context.commands,
-            &mut context.env,
+            context.instructions,
+            context.line,
+            context.output_variable,
+            context.state,
+            context.variables,
+            context.commands,
+            context.env,
         )
     }
 }
